@@ -15,6 +15,8 @@ Decided (DESIGN.md C28):
                 extracted integer template; complete because the chain only compares count with constants).
 NOT decided: numeric monotonicity of the lock over sequences of time steps and failures (that further failures never shorten a lock),
 application-password binds (not soft-locked by design today).
+ K9-upgrade-keeps-credential-identity  from both gen_password_upgrade_mod helpers no credential constructor / Uuid::new_v4 is reachable except through
+     Credential::upgrade_password, which sets the uuid back to self.uuid (the soft lock is keyed by the credential uuid).
 """
 import re
 from .lib.hir import *
